@@ -25,6 +25,40 @@ def sh(cmd, cwd=None, env=None, timeout=3600):
     return p.returncode, p.stdout + p.stderr
 
 
+def write_readme(results):
+    lines = [
+        "# Seeded changes",
+        "",
+        "Each directory holds one change to FEniCS/ufl that breaks a listed property while the library still imports and",
+        "its whole test suite (977 tests) still passes: `patch.diff` (against the pinned tree), `demo.py` (exits 0 on the",
+        "unchanged tree, 1 with the change; an independent computation on the triggering input) and `meta.json` (property,",
+        "what the change needs in order to manifest, which checks were run).  The changes were written by sub-agents that",
+        "saw only the text of the property and a scratch worktree; every one was re-confirmed here (`tools/mutant.py",
+        "confirm`: patch applies, suite passes with it, demo fails with it and passes without it).  None is ever applied",
+        "to /repo by the tooling: `tools/seeded_run.py` applies each to a scratch worktree under /tmp and runs the",
+        "registered quick-tier checks against that tree (PYTHONPATH), writing no evidence.",
+        "",
+        "| change | property | what it needs to manifest | check: verdict (first fingerprints) |",
+        "|---|---|---|---|",
+    ]
+    for name in sorted(results):
+        r = results[name]
+        if "error" in r:
+            lines.append(f"| {name} | | | {r['error']} |")
+            continue
+        meta = json.load(open(os.path.join(SEEDED, name, "meta.json")))
+        needs = (meta.get("needs") or meta.get("summary") or "").replace("|", "/").replace("\n", " ")
+        if len(needs) > 260:
+            needs = needs[:257] + "..."
+        verdicts = "; ".join(f"{c}: **{v['verdict']}**" + (f" ({', '.join(v['fingerprints'][:2])})" if v["fingerprints"] else "") for c, v in sorted(r["checks"].items()))
+        lines.append(f"| {name} | {r['property']} | {needs} | {verdicts} |")
+    det = sum(1 for r in results.values() if any(v["verdict"] == "detected" for v in r.get("checks", {}).values()))
+    lines += ["", f"{det} of {len(results)} changes are detected by at least one registered quick-tier check.", ""]
+    if os.path.exists(os.path.join(SEEDED, "NOTES.md")):
+        lines += open(os.path.join(SEEDED, "NOTES.md")).read().splitlines()
+    open(os.path.join(SEEDED, "README.md"), "w").write("\n".join(lines) + "\n")
+
+
 def main():
     only = sys.argv[1:]
     wt = f"/tmp/seeded_wt_{os.getpid()}"
@@ -61,6 +95,7 @@ def main():
             json.dump(results, open(path, "w"), indent=1, sort_keys=True)
     finally:
         sh(f"git -C /repo worktree remove --force {wt}")
+    write_readme(results)
     return 0
 
 
